@@ -1135,12 +1135,13 @@ pub fn run(args: &Args) {
                 use std::io::Read;
                 let _ = e.read_to_string(&mut err);
             }
-            let tail = if err.len() > 600 { err[err.len() - 600..].to_string() } else { err };
+            let sig = death_signature(&err);
+            let tail = if err.len() > 2500 { err[..2500].to_string() } else { err };
             match status {
                 None => rep.inconclusive.push(format!("run {run_no}: child exceeded its wall-clock watchdog")),
                 Some(st) => {
                     // died without a report: abort / signal inside the store
-                    rep.violation(&format!("e3:{focus}"), &format!("child-died:{}", panic_site(&tail)), json!({"run": run_no, "status": format!("{st:?}"), "stderr": tail, "replay": replay}));
+                    rep.violation(&format!("e3:{focus}"), &format!("child-died:{sig}"), json!({"run": run_no, "status": format!("{st:?}"), "stderr": tail, "replay": replay}));
                 }
             }
             continue;
